@@ -11,7 +11,7 @@ From AK Require Import Base.Prelude Bytes.Text Bytes.FabHeader Bytes.FabHeaderPr
   Plotfile.TextHeader Plotfile.HeaderSpec Plotfile.HeaderProofs
   Taste.Taste Taste.TasteSpec Plotfile.Abstract Taste.CompleteProofs Taste.DataProofs
   Writers.Colander Writers.ColanderSpec Writers.ColanderProofs Writers.ColanderLevelProofs Writers.ColanderToolProofs
-  Writers.CombineProofs Writers.Chef Writers.ChefProofs Writers.ScatterProofs Writers.ChefLevelProofs Writers.Chk2plt Writers.Chk2pltProofs.
+  Writers.CombineProofs Writers.Chef Writers.ChefProofs Writers.ScatterProofs Writers.ChefLevelProofs Writers.RelistProofs Writers.Chk2plt Writers.Chk2pltProofs.
 From Coq Require Import Permutation Sorted.
 
 Section Convert.
@@ -457,10 +457,59 @@ Proof.
   - unfold conv_lv. rewrite (renamed_cells slv Hwf cell_name _ conv_len conv_ok Hnames). fold n.
     apply map_ext. intros i. rewrite outs_are_file_fabs. reflexivity.
 Qed.
+
+(* ---- the level directory: binary files + the level header chk2plt writes ---- *)
+Definition conv_files : list (bytes * list nat) :=
+  map (fun name => (cell_name name, ids_of slv name)) (np_unique (map fst (cells_or_nil slv))).
+
+Lemma conv_files_perm : Permutation (lv_files conv_lv) conv_files.
+Proof.
+  unfold conv_lv, renamed, conv_files. cbn [lv_files].
+  pose proof (Permutation_map (fun nf : bytes * list nat => (cell_name (fst nf), snd nf)) (sorted_perm slv Hwf)) as P.
+  unfold sorted_files in P. rewrite map_map in P. exact P.
+Qed.
+
+(* the converted level with its files listed as the tool lists them *)
+Definition conv_listed : level := relisted conv_lv conv_files.
+
+Lemma wf_conv_listed : wf_level conv_listed = true.
+Proof. exact (wf_relisted conv_lv wf_conv conv_files conv_files_perm). Qed.
+
+Definition conv_plevel (lb : lvboxes) : plevel :=
+  {| pl_boxes := lb; pl_level := conv_listed;
+     pl_mins := map (fun i => map word_token (map comp_min (comps_of i))) (seq 0 n);
+     pl_maxs := map (fun i => map word_token (map comp_max (comps_of i))) (seq 0 n) |}.
+
+(* chk2plt on one level, ANY layout: the level directory written (binary files and level header) is the directory of
+   the converted level - an abstract level (pl_dir), well-formed, whose boxes are the converted boxes *)
+Theorem convert_level_dir_spec : forall nout lb,
+  convert_level_dir nout boxes (lv_disk slv) (cells_or_nil slv) gradp_files gradp_cells ir_files ir_cells do_gradp do_ir floored y_start nspecies
+  = Some (snd (pl_dir nout (conv_plevel lb)))
+  /\ wf_level (pl_level (conv_plevel lb)) = true.
+Proof.
+  intros nout lb. split; [|exact wf_conv_listed].
+  unfold convert_level_dir. rewrite (proj1 convert_level_layout). cbn [obind].
+  unfold pl_dir, conv_plevel. cbn [snd pl_level pl_mins pl_maxs]. f_equal. f_equal.
+  - (* the level header *)
+    f_equal. f_equal. unfold pl_cellh. cbn [pl_level pl_mins pl_maxs].
+    replace (cells_or_nil conv_listed) with (cells_or_nil conv_lv)
+      by (symmetry; exact (relisted_cells conv_lv wf_conv conv_files conv_files_perm)).
+    rewrite !map_map.
+    assert (Hix : map (fun fb => (fab_lo fb, fab_hi fb)) (lv_fabs conv_listed) = boxes).
+    { unfold conv_listed, relisted, conv_lv, renamed. cbn [lv_fabs]. rewrite map_map.
+      transitivity (map (fun i => nth i boxes ([], [])) (seq 0 n)).
+      - apply map_ext. intros i. unfold conv_i, conv_fab, jobi, job_lo, job_hi. cbn [fab_lo fab_hi fst snd].
+        symmetry. apply surjective_pairing.
+      - unfold n. rewrite <- Hboxes. apply map_nth_seq. }
+    rewrite Hix. reflexivity.
+  - (* the binary files *)
+    unfold lv_disk, conv_listed, relisted, conv_files. cbn [lv_files]. rewrite map_map. reflexivity.
+Qed.
 End Level.
 
 Print Assumptions convert_level_spec.
 Print Assumptions convert_level_layout.
+Print Assumptions convert_level_dir_spec.
 
 (* ------------------------------------------------------------------ *)
 (** * the plain conversion (state only): the per-box hypotheses discharged *)
